@@ -229,6 +229,16 @@ def simulator_obligations(tier='quick', seed=0):
         sim = EoN.fast_nonMarkov_SIS(G, trans_time_fxn=lambda u, v, d: [x for x in (0.5 + 0.2537 * deg[v], 1.3071 + 0.2537 * deg[v] + 0.1193 * deg[u], 2.9173 + 0.0611 * deg[v]) if x < d],
                                       rec_time_fxn=lambda u: 1.5 + 0.5113 * deg[u], initial_infecteds=ii, tmax=7, return_full_data=True)
         res['fast_nonMarkov_SIS(several attempts per edge)'] = {u: sim.node_history(u) for u in G}
+        # the index case passed as a bare node (the documented single-node spelling), also for a node whose name is falsy
+        one = ii[0]
+        sim = EoN.fast_nonMarkov_SIR(G, trans_time_fxn=lambda u, v: 1.0 + 0.25 * deg[u] + 0.125 * deg[v],
+                                      rec_time_fxn=lambda u: 1.75 + 0.5 * deg[u], initial_infecteds=one, return_full_data=True)
+        res['fast_nonMarkov_SIR(bare node)'] = {u: sim.node_history(u) for u in G}
+        sim = EoN.fast_nonMarkov_SIS(G, trans_time_fxn=lambda u, v, d: [x for x in (0.5 + 0.2537 * deg[v],) if x < d],
+                                      rec_time_fxn=lambda u: 1.5 + 0.5113 * deg[u], initial_infecteds=one, tmax=5, return_full_data=True)
+        res['fast_nonMarkov_SIS(bare node)'] = {u: sim.node_history(u) for u in G}
+        sim = EoN.discrete_SIR(G, test_transmission=lambda u, v: True, initial_infecteds=one, return_full_data=True)
+        res['discrete_SIR(bare node)'] = {u: sim.node_history(u) for u in G}
         return res
     for gname, G in base_graphs(tier):
         nodes = list(G.nodes())
